@@ -62,7 +62,7 @@ def group_form(insts, chain, deps, special):
         exp, ", chain_experiments=True" if chain else "", (", deps=%r" % (deps,)) if deps is not None else "")
 
 
-def reference_expansion(insts, chain, deps, special):
+def reference_expansion(insts, chain, deps, special, as_tuple=False):
     """The documented meaning: one run_experiment per instance (sharing run and
     deps, chained to the previous instance if asked), then a combine over them."""
     if special in ("none-experiments", "non-instance"):
@@ -74,7 +74,8 @@ def reference_expansion(insts, chain, deps, special):
         if chain and prev is not None:
             d.append(":" + prev)
         lines.append("run_experiment(name=%r, run='./r.sh', parallelizable=%r, args=%r, options=%r, deps=%r)" % (
-            i["name"], i["par"], i["args"] if i["args"] is not None else [], i["options"] if i["options"] is not None else {}, d))
+            i["name"], i["par"], i["args"] if i["args"] is not None else [], i["options"] if i["options"] is not None else {},
+            tuple(d) if as_tuple else d))
         # (an explicitly passed value, well-typed or not, is handed to run_experiment() as it is)
         prev = i["name"]
     lines.append("combine(name='g', deps=%r)" % ([":" + i["name"] for i in insts],))
@@ -123,7 +124,7 @@ def run_project(g, text, tag, second_file=False):
     return info
 
 
-def make(maxinst, args_pool=ARGS, names=NAMES, opts_pool=OPTS, two_files_bit=False, specials=5):
+def make(maxinst, args_pool=ARGS, names=NAMES, opts_pool=OPTS, two_files_bit=False, specials=5, tuple_deps_bit=False):
     def fn(g):
         n = g.choose("ninst", maxinst + 1)            # 0..maxinst instances
         insts = []
@@ -135,8 +136,9 @@ def make(maxinst, args_pool=ARGS, names=NAMES, opts_pool=OPTS, two_files_bit=Fal
         if not deps and g.flag("deps_omitted"):
             deps = None
         special = ("", "non-instance", "none-experiments", "generator", "tuple")[g.choose("special", specials)] if specials > 1 else ""
-        gtext = group_form(insts, chain, deps, special)
-        etext = reference_expansion(insts, chain, deps, special)
+        as_tuple = g.flag("deps_given_as_a_tuple") if (tuple_deps_bit and deps) else False
+        gtext = group_form(insts, chain, tuple(deps) if as_tuple else deps, special)
+        etext = reference_expansion(insts, chain, deps, special, as_tuple)
         two_files = g.flag("second_cond_file") if two_files_bit else False
         A = run_project(g, gtext, "group", two_files)
         B = run_project(g, etext, "explicit", two_files) if etext is not None else None
@@ -229,6 +231,10 @@ def spaces(tier):
           Space("inst1-explicit-values-two-files", make(1, args_pool=ARGS, opts_pool=OPTS, names=("a",), two_files_bit=True, specials=1),
                 "0..1 instance; args from {omitted, list, [], explicit None, explicit ()}, options from {omitted, dict, explicit None, "
                 "explicit []}; chain bit; deps; the same definitions optionally also in a second COND file of the same command", depth=6),
+          Space("inst2-chained-two-files-tuple-deps", make(2, args_pool=ARGS[:1], opts_pool=OPTS[:1], names=("a", "b"), two_files_bit=True, specials=1,
+                                                          tuple_deps_bit=True),
+                "0..2 instances {a, b}; chain bit; deps {omitted, [], [:x], [:x,:y]} given as a list or as a tuple; the same definitions "
+                "optionally also in a second COND file (package b) of the same command", depth=8),
           Space("inst2", make(2, args_pool=ARGS[:2], opts_pool=OPTS[:2], names=NAMES[:6], specials=3), "0..2 instances; names from {a, b, a again, group's own name, another task's name, invalid}; args 2, "
                 "options 2, parallelizable bit per instance; chain bit; deps {omitted, [], [:x], [:x,:y]}; {ok, non-instance element, "
                 "experiments=None, one-shot generator, tuple}", depth=6, goals=goals, outside=[">3 instances"])]
